@@ -89,7 +89,9 @@ func execDecodeCase(c *Case) []ModeResult {
 	})
 	res := []ModeResult{{"TensorFromProto", Verdict(c, a), a.Short()}}
 	b := guard(func() Observation {
-		g := &onnx.GraphProto{Name: "g", Initializer: []*onnx.TensorProto{mkProtoX(x, "w")}, Output: []*onnx.ValueInfoProto{{Name: "w"}}}
+		// a well-formed initializer follows: the outcome of the first must not depend on it
+		follower := &onnx.TensorProto{Name: "z_follower", DataType: 1, Dims: []int64{2}, FloatData: []float32{1, 2}}
+		g := &onnx.GraphProto{Name: "g", Initializer: []*onnx.TensorProto{mkProtoX(x, "w"), follower}, Output: []*onnx.ValueInfoProto{{Name: "w"}}}
 		bytesModel, err := proto.Marshal(mkModel(g, 13))
 		if err != nil {
 			return Observation{Kind: "harness", Note: err.Error()}
